@@ -62,6 +62,9 @@ type Input struct {
 	// Sib: the parent state is the sibling state (same accounts, different contents) instead
 	// of the base state
 	Sib bool `json:"sib,omitempty"`
+	// Pre: a named parent state built through the block executor from the base state, e.g.
+	// "het:39" = the two genesis proposers pay out to different accounts and the first holds 39 more stake
+	Pre string `json:"pre,omitempty"`
 }
 
 type Case struct {
@@ -74,7 +77,45 @@ var (
 	baseRoot common.Hash
 	sibRoot  common.Hash // sibling parent state: same addresses, different code / balances / storage
 	preTouch [][]int     // ordered subsets (<=2) of read ids; index 0 = none
+	preRoots = map[string]common.Hash{}
 )
+
+const (
+	devProposer2    = "0xb26612d2742ab4edd016b354725d045d6627de9b1b2d7c40ae26d2c97af21abd"
+	devProposerAcct = "0xa9e11ce87c646ca4b0c8eb66f28a86232734d74a" // account both genesis proposers pay out to
+)
+
+var hetOffsets = []uint64{1, 7, 39, 100, 777, 12345}
+
+// buildHetRoots: registry pre-states with heterogeneous proposers, made by the production path (a block
+// with a change-account and an add-stake transaction executed by the block executor on the base state)
+func buildHetRoots() {
+	for _, off := range hetOffsets {
+		st := node.StateAt(baseRoot)
+		thousand, _ := utility.StrToBigInt("1000000")
+		st.SetBalance(common.HexToAddress(devProposerAcct), thousand)
+		top := core.GetBlockChain().TopBlock()
+		h := node.Header(top, chainHeight+1, 1, 5, time.Date(2024, 4, 1, 0, 0, 0, 0, time.UTC))
+		b := &types.Block{Header: h}
+		b.Transactions = append(b.Transactions,
+			node.Tx(types.TransactionTypeMinerChangeAccount, devProposerAcct, "", minerJSON(devProposer2, common.MinerTypeProposer, 0, addrF), "", 0, 0, "het-0"),
+			node.Tx(types.TransactionTypeMinerAdd, devProposerAcct, "", minerJSON(node.DevProposer, common.MinerTypeProposer, off, ""), "", 0, 0, "het-1"))
+		h.Hash = h.GenHash()
+		_, _, _, receipts := core.VerifExecuteBlock(st, b, "fullverify")
+		if len(receipts) != 2 || receipts[0].Status != types.ReceiptStatusSuccessful || receipts[1].Status != types.ReceiptStatusSuccessful {
+			msg := ""
+			for _, r := range receipts {
+				msg += fmt.Sprintf("[%d %s]", r.Status, r.Msg)
+			}
+			panic("heterogeneous registry pre-state not built: " + msg)
+		}
+		root, err := st.Commit(true)
+		if err != nil {
+			panic(err)
+		}
+		preRoots[fmt.Sprintf("het:%d", off)] = root
+	}
+}
 
 func word(v int64) []byte { return common.BigToHash(big.NewInt(v)).Bytes() }
 
@@ -227,6 +268,7 @@ func setup() {
 		panic(err)
 	}
 	sibRoot = sroot
+	buildHetRoots()
 	preTouch = [][]int{nil}
 	const reads = 5
 	for i := 0; i < reads; i++ {
@@ -383,6 +425,13 @@ func execute(in Input, ch *fw.Chooser) (string, []string) {
 	parent := baseRoot
 	if in.Sib {
 		parent = sibRoot
+	}
+	if in.Pre != "" {
+		r, ok := preRoots[in.Pre]
+		if !ok {
+			panic("unknown pre-state " + in.Pre)
+		}
+		parent = r
 	}
 	st := node.StateAt(parent)
 	if warm == 1 {
@@ -588,6 +637,16 @@ func permutations(n int) [][]int {
 
 func inputs(thorough bool) []Input {
 	var ins []Input
+	// registry pre-states: the block-wide bookkeeping (rewards over the proposer and validator sets) on a
+	// heterogeneous registry, for the empty block and two short lists
+	for _, off := range hetOffsets {
+		pre := fmt.Sprintf("het:%d", off)
+		ins = append(ins, Input{Name: "het", Pre: pre})
+		ins = append(ins, Input{Name: "het", Pre: pre, Txs: []TxSpec{{Kind: "transfer", Src: "A", Targets: [][2]string{{"F", "3"}, {"B", "3"}}}}})
+		if thorough {
+			ins = append(ins, Input{Name: "het", Pre: pre, Txs: []TxSpec{{Kind: "apply", Src: "B"}, {Kind: "call", Src: "A"}}})
+		}
+	}
 	keys := []string{"B", "A", "AUP", "F"}
 	amts := []string{"0", "1", "6", "7", "11", "bad"}
 	if !thorough {
